@@ -65,7 +65,9 @@ func c16Find(ts []int64, lo int, window, bt time.Duration, netHead *vhdr.Header)
 		head = netHead
 	}
 	res := guard(func() string {
-		h, err := s.VerifFindTailHeight(ctx, oldTail, head)
+		cctx, cancel := context.WithTimeout(ctx, 1500*time.Millisecond)
+		defer cancel()
+		h, err := s.VerifFindTailHeight(cctx, oldTail, head)
 		if err != nil {
 			return "err"
 		}
@@ -96,7 +98,13 @@ func c16Move(ts []int64, lo int, window, bt time.Duration, netExtra int, syncFro
 	head := chain[len(chain)-1]
 	run := func() string {
 		return guard(func() string {
-			_, err := s.VerifSubjectiveTail(ctx, head)
+			// bounded: a tail computation that parks on a height above the store head never returns by itself
+			cctx, cancel := context.WithTimeout(ctx, 1500*time.Millisecond)
+			defer cancel()
+			_, err := s.VerifSubjectiveTail(cctx, head)
+			if errors.Is(err, context.DeadlineExceeded) {
+				return "hang"
+			}
 			if err != nil {
 				if errors.Is(err, header.ErrNotFound) {
 					return "errNotFound"
@@ -205,6 +213,17 @@ func runC16(tier string, r *rng) {
 	// the node was offline: the network head is far above the local head
 	for _, extra := range []int{50, 350} {
 		c16Move(mk(400, sec), 1, 100*sec, sec, extra, 0, "offline")
+	}
+	// offline across a halt: local store 1..100 (1 s apart), 10 min pause, 3 more blocks on the network only
+	{
+		ts := mk(100, sec)
+		for i := range ts {
+			ts[i] -= int64(10 * time.Minute)
+		}
+		ts = append(ts, mk(3, sec)...)
+		c16Move(ts, 1, 50*sec, sec, 3, 0, "offline-halt")
+		c16Move(ts, 40, 50*sec, sec, 3, 0, "offline-halt")
+		c16Move(ts, 1, 50*sec, sec, 2, 0, "offline-halt")
 	}
 	// SyncFromHeight up and down
 	for _, sfh := range []uint64{1, 5, 40, 80} {
